@@ -725,9 +725,13 @@ def c10_binary(V, tier):
                 rest = sorted(s["name"] for s in ws if not s["name"].startswith("fill_"))
                 return both if both == rest else {"document": both, "workspace": rest}
             first = names()
-            srv.did_change(f, buf2, version=2)
+            # "one further change notification": first one that carries the SAME text again (format-on-save, undo/redo under
+            # full sync), then one with new content
+            srv.did_change(f, text, version=2)
+            same_again = names()
+            srv.did_change(f, buf2, version=3)
             after = names()
-            return {"first": first, "after": after, "alive": srv.alive()}
+            return {"first": first, "same_again": same_again, "after": after, "alive": srv.alive()}
         except (lsp.ServerDied, lsp.Timeout) as e:
             return {"error": str(e)}
         finally:
@@ -745,6 +749,8 @@ def c10_binary(V, tier):
             V.violation(ex, "server died while a document was opened during the workspace scan")
             continue
         want = ["on_disk"] if same else ["in_buffer"]
+        if r["same_again"] != want:
+            V.violation(ex, "a further change notification carrying the same text does not restore the single-analysis state (real binary)")
         if r["after"] != ["second"]:
             V.violation(ex, "one further change notification does not restore the single-analysis state (real binary)")
         if r["first"] != want:
